@@ -14,6 +14,10 @@
            a sparsely stored vector and the dense vector of the same numbers) give the same
            result for every operation.
 
+      (H4) OPERANDS ARE VALUES: a step leaves every object it was given (the element, the matrix B of
+           exp_mixed, the group and algebra objects) denoting the value it had before the step
+           (After(step) below): no call writes into its arguments.
+
    A history is a sequence of steps  [g |-> group, mk |-> maker, op |-> operation]  executed in
    ONE fresh interpreter.  What an implementation can remember between calls is keyed by what it
    saw FIRST (first maker per group and operation), by the ORDER of operations on a group
@@ -33,14 +37,19 @@ VARIABLES cfg, pos, step
 
 Groups == << "SO3Quat", "SO3Mrp", "SO3Dcm", "SO3EulerB321", "EulerS321", "EulerB123", "SE3Quat", "SE3Mrp",
              "SE23Quat", "SE23Mrp", "SE2", "SO2", "R3", "SO3Quat*R3", "SE3Quat*SE3Mrp", "SE3Mrp*SE3Quat",
-             "alg:so3", "alg:se3", "alg:se23", "alg:se2" >>
+             "alg:so3", "alg:se3", "alg:se23", "alg:se2", "alg:so3*r3" >>
 Makers == << "id", "exp0", "a", "b", "s", "sd" >>
 Ops    == << "mat", "inv", "sq", "ident", "log", "Ad", "Jl", "Jr", "Jli", "Jri", "conv", "shadowseq", "exp",
-             "Jl_after_Jr", "Jr_after_Jl", "Ad_held", "mat_held" >>
+             "Jl_after_Jr", "Jr_after_Jl", "Ad_held", "mat_held",
+             "scaled", "mixed", "mixed2", "mat_after_extend", "sq_after_extend", "log_after_extend", "Ad_after_extend" >>
 (* (H3) operations that differ from a base operation only in what ELSE was done with the same objects: the right
    Jacobian asked for first on the same element object, a result object held while the same method is called on
    another element.  Their semantics is the base operation's. *)
-BaseOp(op) == CASE op = "Jl_after_Jr" -> "Jl" [] op = "Jr_after_Jl" -> "Jr" [] op = "Ad_held" -> "Ad" [] op = "mat_held" -> "mat" [] OTHER -> op
+BaseOp(op) == CASE op = "Jl_after_Jr" -> "Jl" [] op = "Jr_after_Jl" -> "Jr" [] op = "Ad_held" -> "Ad" [] op = "mat_held" -> "mat"
+                [] op = "mixed2" -> "mixed"                       \* exp_mixed called a second time with the SAME argument objects
+                [] op = "mat_after_extend" -> "mat" [] op = "sq_after_extend" -> "sq"      \* the element's group (algebra) object was used as the left
+                [] op = "log_after_extend" -> "log" [] op = "Ad_after_extend" -> "Ad"      \* factor of a larger direct product in between
+                [] OTHER -> op
 NG == Len(Groups)   NM == Len(Makers)   NO == Len(Ops)
 
 (* value classes: which makers denote the same element *)
@@ -72,6 +81,7 @@ Total == NG * NO * NM
 
 Sem(st) == << st.g, BaseOp(st.op), ValueOf(st.mk) >>
 
+After(st) == ValueOf(st.mk)           \* (H4) what the operand of a step denotes after the step: what it denoted before
 NoStep == [g |-> "none", op |-> "none", mk |-> "none"]
 Init == cfg \in Cfgs /\ pos = 0 /\ step = NoStep
 Next == pos < Total /\ pos' = pos + 1 /\ step' = StepAt(cfg, pos + 1) /\ UNCHANGED cfg
@@ -90,6 +100,7 @@ H1 == pos >= 1 => LET st == step IN
 H3 == pos >= 1 => Sem([step EXCEPT !.op = BaseOp(step.op)]) = Sem(step)
 H2 == pos >= 1 => LET st == StepAt(cfg, pos) IN
           \A i \in 1..NM : ValueOf(Makers[i]) = ValueOf(st.mk) => Sem([st EXCEPT !.mk = Makers[i]]) = Sem(st)
+H4 == pos >= 1 => After(step) = ValueOf(step.mk) /\ Sem([step EXCEPT !.op = "mat"]) = << step.g, "mat", After(step) >>
 FirstSeen == pos >= 1 => LET st == StepAt(cfg, pos) IN      \* the configuration's first maker really is the first one every (group, op) sees
           (st.mk = Makers[cfg.first]) <=> ((pos - 1) % NM = 0)
 
